@@ -31,6 +31,7 @@ enum Kern { K_ADD = 0, K_FROM_MULTI, K_TO_MULTI, K_RS8_ADDMUL, K_GF28_ADDMUL, K_
 static const char* const kern_names[] = {"add_to_symbol", "add_from_multiple_symbols", "add_to_multiple_symbols", "rs8_addmul1",
                                          "gf28_addmul1", "gf24_addmul1", "gf24_addmul1_compact"};
 
+static std::string g_tuple_prefix;   // kernel calls made just before the failing one (interleaving pass): part of the replay
 struct Tuple { int kern; uint32_t size, cnt, a_single, c; uint64_t cseed; int content; int a_other; /* alignment of the other operand, -1 = seeded */ };
 static std::string tuple_text(const Tuple& t) {
   char b[256];
@@ -38,6 +39,10 @@ static std::string tuple_text(const Tuple& t) {
            t.content, (unsigned long long)t.cseed, t.a_other);
   return b;
 }
+
+// the kernel calls made just before the current one: a kernel's result must not depend on them, so they belong to the replay
+static std::string g_recent[6]; static size_t g_recent_n = 0;
+static std::string recent_text() { std::string r; size_t n = std::min<size_t>(g_recent_n, 6); for (size_t i = 0; i < n; i++) r += g_recent[(g_recent_n - n + i) % 6]; return r; }
 
 static void fill(uint8_t* p, uint32_t n, int content, uint64_t& x, bool nibble_vals) {
   for (uint32_t i = 0; i < n; i++) {
@@ -125,10 +130,11 @@ static bool run_tuple(const Tuple& t) {
     if (!ok) {
       fail(std::string("C13/KERNEL/") + kern_names[t.kern] + "/" + why,
            std::string(kern_names[t.kern]) + ": " + why + " for size=" + std::to_string(t.size) + " count=" + std::to_string(t.cnt) + " align=" + std::to_string(t.a_single) + " c=" + std::to_string(t.c),
-           "# property C13\n" + tuple_text(t));
+           "# property C13\n" + (g_tuple_prefix.empty() ? recent_text() : g_tuple_prefix) + tuple_text(t));
       return false;
     }
   }
+  g_recent[g_recent_n++ % 6] = tuple_text(t);
   return true;
 }
 
@@ -227,6 +233,35 @@ static void run_c13(bool thorough, int worker, int nworkers, uint64_t seed) {
       run_group(k, s, a, 2, thorough, seed, true);
     }
   }
+  // interleavings: a kernel's result may depend on nothing but its arguments, whatever kernel ran just before. Every ordered
+  // pair of multiply-accumulate kernels, the same constant passed to both (K1, K2, K1 again), a few sizes on both sides of
+  // plausible vector thresholds; then pairs with an XOR kernel in between.
+  {
+    static const uint32_t isz[] = {15, 16, 17, 63, 64, 65, 100, 255, 256, 1024, 1500};
+    static const int gk[4] = {K_RS8_ADDMUL, K_GF28_ADDMUL, K_GF24_ADDMUL, K_GF24_COMPACT};
+    uint64_t cases = 0;
+    for (uint32_t s1 : isz) for (int i1 = 0; i1 < 4; i1++) for (int i2 = 0; i2 < 4 && !failed; i2++) {
+      if (i1 == i2 || !kern_available(gk[i1]) || !kern_available(gk[i2])) continue;
+      bool small_field = gk[i1] >= K_GF24_ADDMUL || gk[i2] >= K_GF24_ADDMUL;
+      for (uint32_t c = 0; c < (small_field ? 16u : 256u) && !failed; c++) {
+        if ((gidx++ % (uint64_t)nworkers) != (uint64_t)worker) continue;
+        uint32_t s2 = (c % 3 == 0) ? s1 : isz[(c + s1) % (sizeof isz / sizeof isz[0])];
+        Tuple t{}; t.cnt = 1; t.c = c; t.a_single = c & 7; t.a_other = -1; t.content = 0;
+        g_tuple_prefix.clear();
+        for (int step = 0; step < 3 && !failed; step++) {
+          t.kern = step == 1 ? gk[i2] : gk[i1]; t.size = step == 1 ? s2 : s1;
+          t.cseed = mix2(mix2(seed, ((uint64_t)i1 << 40) | ((uint64_t)i2 << 32) | s1), (uint64_t)c * 4 + step);
+          cur.put("# property C13\n" + g_tuple_prefix + tuple_text(t));
+          st.evaluations++; st.nontrivial++; st.classes["interleaved_pairs"]++;
+          if (run_tuple(t)) g_tuple_prefix += tuple_text(t);
+        }
+        cases++;
+      }
+    }
+    g_tuple_prefix.clear();
+    st.counters["interleaving_cases"] += cases;
+    st.subspaces.push_back("interleavings: every ordered pair of the four multiply-accumulate kernels x every field constant both accept x 11 sizes (K1, K2, K1 with the same constant): complete");
+  }
 }
 
 // ---------------------------------------------------------------------------------------------
@@ -285,7 +320,7 @@ static int rsm_use(uint32_t m, uint64_t start, uint64_t count) {
 
 static bool g_c14_thorough = false;
 static void set_c14_rule() {
-  st.rule = std::string("every entry of every multiplication / inverse / log / exp table of the GF(2^m) codec (precomputed, incl. the packed two-nibble table) and of the GF(2^8) codec (generated at first use, and after two further calls of the exported of_rs_init), compared with shift-and-reduce arithmetic in GF(2)[x]/(x^4+x+1) and GF(2)[x]/(x^8+x^4+x^3+x^2+1); log entry 0 is a documented sentinel and skipped; the generated GF(2^8) tables are checked again, completely, after ordinary use of the codec kernel in three further workers (codec contexts created and freed | plus a repair symbol encoded | plus an erasure decoded), whenever the number of contexts reaches 2^j or 2^j + 1, up to ") + (g_c14_thorough ? "2^23 + 1" : "2^20 + 1") + " contexts; the precomputed GF(2^m) tables are checked again after 2^j and 2^j + 1 encoder+decoder session pairs driven through the public API (m = 4 and m = 8, up to " + (g_c14_thorough ? "2^19 + 1" : "2^16 + 1") + " pairs); non-trivial = both operands (or the index) outside {0,1}";
+  st.rule = std::string("every entry of every multiplication / inverse / log / exp table of the GF(2^m) codec (precomputed, incl. the packed two-nibble table) and of the GF(2^8) codec (generated at first use, and after five further calls of the exported of_rs_init under verbosity 0, 1 and 2), compared with shift-and-reduce arithmetic in GF(2)[x]/(x^4+x+1) and GF(2)[x]/(x^8+x^4+x^3+x^2+1); log entry 0 is a documented sentinel and skipped; the generated GF(2^8) tables are checked again, completely, after ordinary use of the codec kernel in three further workers (codec contexts created and freed | plus a repair symbol encoded | plus an erasure decoded), whenever the number of contexts reaches 2^j or 2^j + 1, up to ") + (g_c14_thorough ? "2^23 + 1" : "2^20 + 1") + " contexts; the precomputed GF(2^m) tables are checked again after 2^j and 2^j + 1 encoder+decoder session pairs driven through the public API (m = 4 and m = 8, up to " + (g_c14_thorough ? "2^19 + 1" : "2^16 + 1") + " pairs); non-trivial = both operands (or the index) outside {0,1}";
   st.exhaustive = true;
 }
 static void run_c14(const std::string& only_table = "", long only_index = -1, int use_flavour = 0, uint64_t use_sessions = 0) {
@@ -339,10 +374,18 @@ static void run_c14(const std::string& only_table = "", long only_index = -1, in
       if (want("rs8_mul") && shp_rs8_table(3, &p, &es, &cnt, &stride)) check_table("rs8_mul", p, es, cnt, stride * stride, [&](size_t i, uint64_t& w) { size_t a = i / stride, b = i % stride; if (a >= 256 || b >= 256) return false; w = f8.mul((unsigned)a, (unsigned)b); return true; }, [&](size_t i) { return i / stride > 1 && i % stride > 1; }, only_index);
     };
     if (use_flavour == 0) {
-      for (int round = 0; round < 3 && !failed; round++) {
+      // generations: first use and one regeneration (verbosity 0), then regenerations under each documented verbosity
+      // (the tables are generated whenever the first RS session of a process is used, whatever was asked for then), then quiet again
+      static const uint32_t verb_of_round[6] = {0, 0, 1, 2, 0, 2};
+      for (int round = 0; round < 6 && !failed; round++) {
+        shp_set_verbosity(verb_of_round[round]);
         if (round) shp_rs8_reinit();
+        shp_set_verbosity(0);
         st.counters["rs8_table_generations"]++;
+        char b[64]; snprintf(b, sizeof b, "generation round=%d verbosity=%u\n", round, verb_of_round[round]);
+        g_use_prefix = b;
         rs8_tables();
+        g_use_prefix.clear();
       }
     } else {
       // the generated tables are process-wide and writable: they must still be the field after any amount of ordinary
